@@ -73,6 +73,13 @@ pub fn rrss_bin() -> PathBuf {
 
 static DIR_COUNTER: AtomicU64 = AtomicU64::new(0);
 
+/// Held around every spawn, and by a peer for the short time between closing
+/// its end of a pipe and the child meeting the closed pipe: a process being
+/// forked by another worker holds copies of all descriptors until its exec,
+/// which would keep the pipe open for that instant (descriptor inheritance
+/// race). With the lock the fault lands deterministically.
+pub static SPAWN_LOCK: std::sync::Mutex<()> = std::sync::Mutex::new(());
+
 /// A private scratch directory (removed on drop).
 pub struct Scratch {
     pub path: PathBuf,
@@ -169,9 +176,11 @@ pub fn run(spec: &ProcSpec, scratch: &Scratch, tag: &str) -> Result<ProcResult, 
             cmd.stdin(Stdio::null());
         }
     }
-    let mut child = cmd
-        .spawn()
-        .map_err(|e| format!("cannot spawn {}: {}", bin.display(), e))?;
+    let mut child = {
+        let _guard = SPAWN_LOCK.lock().unwrap_or_else(|e| e.into_inner());
+        cmd.spawn()
+            .map_err(|e| format!("cannot spawn {}: {}", bin.display(), e))?
+    };
     let feeder = if spec.stdin_kind == StdinKind::Pipe {
         let mut stdin = child.stdin.take().unwrap();
         let data = spec.stdin.clone();
